@@ -293,7 +293,42 @@ func (l *CustomQueryListener) matchPredicate(invokedPredicate PredicateInvocatio
 	return matches[0], nil
 }
 
+// normalizeWhitespace replaces every run of white space outside string literals by one space.
+// The grammar's membership operator is the literal token ' in ' (with its two spaces), so
+// without this 'x  in y' or a line break before 'in' would not lex as that token.
+func normalizeWhitespace(s string) string {
+	var b strings.Builder
+	inString := false
+	isSpace := func(c byte) bool { return c == ' ' || c == '\t' || c == '\r' || c == '\n' }
+	for i := 0; i < len(s); i++ {
+		c := s[i]
+		if inString {
+			b.WriteByte(c)
+			if c == '\\' && i+1 < len(s) {
+				i++
+				b.WriteByte(s[i])
+			} else if c == '"' {
+				inString = false
+			}
+			continue
+		}
+		if isSpace(c) {
+			for i+1 < len(s) && isSpace(s[i+1]) {
+				i++
+			}
+			b.WriteByte(' ')
+			continue
+		}
+		if c == '"' {
+			inString = true
+		}
+		b.WriteByte(c)
+	}
+	return b.String()
+}
+
 func ParseQuery(inputQuery string) (Query, error) {
+	inputQuery = normalizeWhitespace(inputQuery)
 	inputStream := antlr.NewInputStream(inputQuery)
 	lexer := NewQueryLexer(inputStream)
 	stream := antlr.NewCommonTokenStream(lexer, antlr.TokenDefaultChannel)
